@@ -36,8 +36,8 @@ func VerifC06_Engine() {
 	gSeen := flows.VerifQueryGroup(env, sa.fields, "g-seen", "Seen", contactql.NewCondition(contactql.PropertyTypeAttribute, contactql.AttributeLastSeenOn, contactql.OpNotEqual, ""))
 	gName := flows.VerifQueryGroup(env, sa.fields, "g-name", "Named", contactql.NewCondition(contactql.PropertyTypeAttribute, contactql.AttributeName, contactql.OpEqual, "a"))
 	zzverif.Assert(gSeen != nil && gName != nil, "query groups did not validate")
-	groups := []*flows.Group{gSeen, gName}
-	sa.groups = flows.VerifGroupAssets(groups...)
+	var groups []*flows.Group
+	sa.groups, groups = flows.VerifGroupAssets(env, sa.fields, gSeen, gName)
 
 	// node 0: optionally set the name, then wait for a message; node 1: optionally set the name
 	var acts0, acts1 []flows.Action
